@@ -149,7 +149,7 @@ let rec p_entries (l : string list) = match l with
   | t :: i :: p :: rest -> ((n_of_string t, n_of_string i), bytes_of_hex p) :: p_entries rest
   | _ -> failwith "bad entries"
 
-type xop = Op of op | Disk | Resident | Dump | SnapTake | SnapIter | Stress | Mutate of n * int * int  (* K: directory; H: resident; W: dump; DS/DI: snapshot; M: alter a byte *)
+type xop = Op of op | Disk | Resident | Dump | SnapTake | SnapIter | Stress | DumpAbort | Mutate of n * int * int  (* K: directory; H: resident; W: dump; DS/DI: snapshot; M: alter a byte *)
 
 let p_op (s : string) : xop = match toks s with
   | ["V"; t; n] -> Op (OW (OVote (n_of_string t, n_of_string n)))
@@ -171,6 +171,7 @@ let p_op (s : string) : xop = match toks s with
   | ["H"] -> Resident
   | ["W"] -> Dump
   | ["RR"; _] -> Stress
+  | ["WA"; _] -> DumpAbort
   | ["M"; id; pos; v] -> Mutate (n_of_string id, int_of_string pos, int_of_string v)
   | ["DS"] -> SnapTake
   | ["DI"] -> SnapIter
@@ -204,6 +205,7 @@ let run_xops (y0 : sys option) (first : string list) (ops : xop list) : string =
            grave := yy.y_disk @ List.filter (fun f -> not (List.exists (fun g -> g.f_id = f.f_id) yy.y_disk)) !grave;
            (match xo with
             | Disk -> out := str_disk yy.y_disk :: !out
+            | DumpAbort -> out := "unit" :: !out     (* a dump abandoned by its visitor changes nothing *)
             | Stress ->
               (* concurrent readers against cache drains: reads return what they returned before
                  (only the hit/miss counters move, which is why this comes last in a case) *)
@@ -275,7 +277,7 @@ let do_spec (rest : string) : string =
     let s = ref spec0 in
     let outs = List.map (fun xo ->
         match xo with
-        | Disk | Resident | Dump | SnapTake | SnapIter | Stress | Mutate _ -> "-"
+        | Disk | Resident | Dump | SnapTake | SnapIter | Stress | DumpAbort | Mutate _ -> "-"
         | Op (OW w) ->
           (match w with
            | OUpdateState _ -> "unsupported"
@@ -513,7 +515,7 @@ let replay_all (z0 : sys2) (evs : (int * string) list) : string =
            end
            else if starts_with e "c call " then begin
              match p_op (after e "c call ") with
-             | Disk | Resident | Dump | SnapTake | SnapIter | Stress | Mutate _ -> fail "unsupported op in trace"
+             | Disk | Resident | Dump | SnapTake | SnapIter | Stress | DumpAbort | Mutate _ -> fail "unsupported op in trace"
              | Op o ->
                List.concat_map (fun (z, _) ->
                    match zstep z (ZCall o) with
